@@ -58,6 +58,9 @@ class SockObj(Opaque):
         ctx = it.ctx
         w.reads += 1
         if w.reads > w.read_limit:
+            if conc(z3.simplify(w.len - w.pos)) == 0:
+                # the stream ended long ago and the code keeps reading: it never terminates
+                raise Blocked('reads the ended socket forever (no progress after %d reads)' % w.read_limit, w)
             raise Unsupported('socket read bound exceeded')
         if w.shut_rd:
             return Ok(bv(0))
